@@ -613,6 +613,80 @@ class GluedAfterQuote(Part):
         return res
 
 
+class EveryWhitespaceAsSeparator(Part):
+    name = "same_secret_with_every_whitespace_character_as_separator"
+    desc = ("every one-slot form (text secret) written with blanks, then with each other white-space character of Unicode in "
+            "place of all blanks / of the blank after the secret / before appended text, in one run: the secret gets one "
+            "replacement everywhere")
+
+    def __init__(self, tier, seed):
+        self.tier, self.seed = tier, seed
+        cat = secdom.catalogue()
+        multi = {f["group"] for f in cat if (f.get("regex_index") or 0) > 0}
+        self.forms = {f["id"]: f for f in cat if not f["scrub"] and f["slots"] == 1 and "{S}" in f["template"] and "text" in f["classes"]
+                      and f["group"] not in multi and "[^;]" not in f["regex"]}
+
+    def cases(self):
+        return [{"form": fid} for fid in sorted(self.forms)]
+
+    @staticmethod
+    def separators():
+        import sys
+
+        return [chr(c) for c in range(sys.maxunicode + 1) if chr(c).isspace() and chr(c) not in " \n\r"]
+
+    def run(self, case):
+        from netconan.anonymize_files import FileAnonymizer
+
+        res = Res()
+        f = self.forms[case["form"]]
+        S = "S3cr3tComm"
+        base = secdom.fill(f["template"], [S])
+        marked = secdom.fill(f["template"], ["\x00"]).split()
+        idx = [i for i, t in enumerate(marked) if "\x00" in t][0]
+        toks = base.split(" ")
+        sidx = [i for i, t in enumerate(toks) if S in t][0]
+        lines = [base]
+        for c in self.separators():
+            if "sep" in case and case["sep"] != c:
+                continue
+            lines.append(base.replace(" ", c))
+            if sidx + 1 < len(toks):
+                lines.append(" ".join(toks[:sidx + 1]) + c + " ".join(toks[sidx + 1:]))
+            else:
+                lines.append(base + c + "authorization read-only")
+            if sidx > 0:
+                lines.append(" ".join(toks[:sidx]) + c + " ".join(toks[sidx:]))
+        with seams.capture_logs():
+            fa = FileAnonymizer(anon_pwd=True, anon_ip=False, salt="saltForTest")
+            out = io.StringIO()
+            fa.anonymize_io(io.StringIO("".join(l + "\n" for l in lines), newline=""), out)
+        got = out.getvalue().split("\n")[:-1]
+        res.transitions = len(lines)
+        if len(got) != len(lines):
+            res.violation("line-count|separators", "%d lines in, %d out" % (len(lines), len(got)), case)
+            return res
+        b = got[0].split()
+        if got[0] == base or len(b) <= idx or S in got[0]:
+            res.count("forms_left_to_the_catalogue_part")
+            return res
+        rep = b[idx]
+        for ln, g in zip(lines[1:], got[1:]):
+            res.evals += 1
+            res.nt(ln)
+            t = g.split()
+            ok = len(t) > idx and t[idx] == rep and S not in g
+            res.out(ok)
+            if not ok:
+                sep = [ch for ch in ln if ch.isspace() and ch != " "][:1]
+                res.violation("equal-secrets-different-replacements|separator" if S not in g else "secret-survives|separator",
+                              "form %s: %r -> %r, but %r -> %r" % (f["id"], base, got[0], ln, g), dict(case, sep=sep[0] if sep else " "))
+                break
+        if "sep" not in case:
+            res.samples.append({"form": f["template"], "lines": len(lines)})
+        return res
+
+
 def parts(tier, seed):
     return [HistoryPart(tier, seed), SaltChars(tier, seed), LongHistory(tier, seed), NearPlaintexts(tier, seed), LongLines(tier, seed), Quotings(tier, seed),
-            GluedAfterQuote(tier, seed)]
+            GluedAfterQuote(tier, seed), EveryWhitespaceAsSeparator(tier, seed)]
